@@ -26,6 +26,7 @@ ANCHORS = ["prov.model:ProvDocument.serialize", "prov.model:ProvDocument.deseria
            "prov.serializers.provrdf:ProvRDFSerializer.serialize", "prov.serializers.provrdf:ProvRDFSerializer.deserialize",
            "prov.serializers.provn:ProvNSerializer.serialize", "prov.serializers:Registry.load_serializers", "prov.serializers:get"]
 DESTS = ["string", "text_stream", "binary_stream", "path"]
+PATH_NAMES = ["out-été.%s", "a#b.%s", "x?y=1.%s", "semi;colon.%s", "with space.%s", "c:d.%s", "plain.%s"]
 SOURCES = ["content_str", "content_bytes", "text_stream", "binary_stream", "path"]
 
 
@@ -71,7 +72,7 @@ def write_all(doc, fmt, box):
     b = io.BytesIO()
     doc.serialize(b, format=fmt)
     out["binary_stream"] = b.getvalue()
-    p = os.path.join(box, "out-été.%s" % fmt)
+    p = os.path.join(box, PATH_NAMES[len(fmt) % len(PATH_NAMES)] % fmt)
     doc.serialize(p, format=fmt)
     with open(p, "rb") as f:
         out["path"] = f.read()
@@ -98,7 +99,7 @@ def read_source(kind, data, fmt, box, n):
         return pm.ProvDocument.deserialize(io.StringIO(text), format=fmt)
     if kind == "binary_stream":
         return pm.ProvDocument.deserialize(io.BytesIO(text.encode("utf-8")), format=fmt)
-    p = os.path.join(box, "in%d.%s" % (n, fmt))
+    p = os.path.join(box, PATH_NAMES[n % len(PATH_NAMES)] % ("%d.%s" % (n, fmt)))
     with open(p, "wb") as f:
         f.write(data if isinstance(data, bytes) else data.encode("utf-8"))
     return pm.ProvDocument.deserialize(p, format=fmt)
@@ -106,7 +107,7 @@ def read_source(kind, data, fmt, box, n):
 
 def judge(ctx, idx, case):
     ctx.hub.context = {"check": ID, "idx": idx}
-    doc = interp.run(case["ops"]).doc
+    doc = common.build(case["ops"]).doc
     if rdfspace.in_space(doc) or c02.in_space(doc):
         ctx.count("skipped.outside_intersection")
         return
